@@ -34,7 +34,8 @@ fn check_mapped<B: std::ops::Deref<Target = [u8]>>(
         (Ok(m), Ok(ops)) => {
             let got: Vec<Op> = no_panic("BytecodeMapped::ops", || m.ops().collect())?;
             ensure!(got == *ops, "map:ops", "{what}: ops() = {got:?}, parsed list = {ops:?}");
-            for i in 0..ops.len() + 4 {
+            let far = [usize::MAX, usize::MAX - 1, usize::MAX / 2, usize::MAX / 2 + 1, 1 << 32, (1 << 32) - 1, 1 << 16, 10_000];
+            for i in (0..ops.len() + 4).chain(far) {
                 let o = no_panic("BytecodeMapped::op", || m.op(i))?;
                 ensure!(o == ops.get(i).copied(), "map:op-index", "{what}: op({i}) = {o:?}, list[{i}] = {:?}", ops.get(i));
                 let from = no_panic("BytecodeMapped::ops_from", || m.ops_from(i).map(|s| s.ops().collect::<Vec<Op>>()))?;
@@ -131,10 +132,15 @@ fn oracle_exec(case: &ExecCase, obs: &mut Obs) -> Result<(), Violation> {
         per_yield: GasLimit::DEFAULT_PER_YIELD,
         total: case.limit,
     };
-    let Some(vm0) = case.make_vm() else {
+    let Some(mut vm0) = case.make_vm() else {
         obs.skip("init not constructible");
         return Ok(());
     };
+    // a few machines start far beyond the end of the program (both entry points then have nothing to execute)
+    if case.init.pc == 5 && case.prog.len() % 3 == 0 {
+        vm0.pc = [usize::MAX, usize::MAX - 1, 1 << 32][case.prog.len() / 3 % 3];
+        obs.label("start-pc-far-beyond-end");
+    }
     let run = |mode: u8| -> Result<(essential_vm::Vm, Result<u64, String>), Violation> {
         let mut vm = vm0.clone();
         let gas = AuditGas::new(case.costs.clone());
@@ -208,7 +214,7 @@ fn long_case() -> impl Strategy<Value = LongCase> {
 pub fn property() -> Property {
     Property {
         id: "C14",
-        rule: "generated byte strings (random, opcode-biased, valid programs, an invalid opcode at any op position, a Push truncated to 0..7 immediate bytes at the end) mapped as Vec<u8>, &[u8] and Arc<[u8]> and compared with asm::from_bytes: success/failure and error kind+byte, ops(), op(i) and ops_from(i) for i in 0..len+3, op_indices vs byte offsets recomputed by RefAsm, FromIterator/push_op vs serialised bytes; generated programs (structured jumps/repeats/compute, jumps landing at/after/far beyond the end, op soup) from random machine states, gas tables and limits executed with exec_ops and exec_bytecode (owned, borrowed): equal Vm (PartialEq), equal gas or identical error rendering; straight-line programs of 9990..10020, ~2^15, ~2^16 and random up to 70000 ops executed to the end both ways. Non-trivial = (mapping) a Push is present or the string is invalid; (execution) a Push and a control transfer/compute are present.",
+        rule: "generated byte strings (random, opcode-biased, valid programs, an invalid opcode at any op position, a Push truncated to 0..7 immediate bytes at the end) mapped as Vec<u8>, &[u8] and Arc<[u8]> and compared with asm::from_bytes: success/failure and error kind+byte, ops(), op(i) and ops_from(i) for i in 0..len+3 and for far indices (10000, 2^16, 2^32, usize::MAX/2, usize::MAX-1, usize::MAX), op_indices vs byte offsets recomputed by RefAsm, FromIterator/push_op vs serialised bytes; generated programs (structured jumps/repeats/compute, jumps landing at/after/far beyond the end, op soup) from random machine states, gas tables and limits executed with exec_ops and exec_bytecode (owned, borrowed): equal Vm (PartialEq), equal gas or identical error rendering; straight-line programs of 9990..10020, ~2^15, ~2^16 and random up to 70000 ops executed to the end both ways. Non-trivial = (mapping) a Push is present or the string is invalid; (execution) a Push and a control transfer/compute are present.",
         assumptions: vec!["RefAsm byte offsets are the reference for op_indices"],
         health: vec![],
         subs: vec![
